@@ -14,7 +14,7 @@ followed by `if (exc_pending) return`; invoke branches to the landing pad; resum
 """
 import re, sys, collections, json
 
-TOK = re.compile(r'''\s*(c"(?:[^"\\]|\\\\|\\[0-9A-Fa-f]{2})*"|[%@]"(?:[^"\\]|\\.)*"|[%@][-a-zA-Z$._0-9]+|![a-zA-Z0-9_.]*|\#\d+|-?\d+\.\d+(?:e[+-]?\d+)?|0x[0-9A-Fa-f]+|-?\d+|\.\.\.|[a-zA-Z_][a-zA-Z0-9_.]*|[\[\]{}<>()*,=:!])''')
+TOK = re.compile(r'''\s*(c"(?:[^"\\]|\\\\|\\[0-9A-Fa-f]{2})*"|[%@]"(?:[^"\\]|\\.)*"|[%@][-a-zA-Z$._0-9]+|"(?:[^"\\]|\\.)*"|\$"[^"]*"|\$[-a-zA-Z$._0-9]+|![a-zA-Z0-9_.]*|\#\d+|-?\d+\.\d+(?:e[+-]?\d+)?|0x[0-9A-Fa-f]+|-?\d+|\.\.\.|[a-zA-Z_][a-zA-Z0-9_.]*|[\[\]{}<>()*,=:!])''')
 
 _WS_END = re.compile(r'\s*(;.*)?$')
 _COMMENT = re.compile(r'\s*;')
